@@ -121,6 +121,12 @@ def _check_index_type(x):
 # getitem / setitem
 
 def getitem(ip, o, idx):
+    if hasattr(o, 'pv_getitem'):
+        return o.pv_getitem(ip, idx)
+    if isinstance(o, dict) and hasattr(idx, 'pv_getattr'):
+        if idx in o:
+            return o[idx]
+        raise PyRaise(ExcVal('KeyError', ('object key',)))
     if isinstance(o, (list, tuple)):
         if isinstance(idx, SliceVal):
             cs = [concrete_int(x) if x is not None else None for x in (idx.start, idx.stop, idx.step)]
@@ -356,7 +362,15 @@ def py_mod(a, b):
     return a - b * py_floordiv(a, b)
 
 
+_OPNAMES = {'Add': 'add', 'Sub': 'sub', 'Mult': 'mul', 'Div': 'div', 'MatMult': 'matmul', 'Pow': 'pow',
+            'Mod': 'mod', 'FloorDiv': 'floordiv', 'BitXor': 'xor'}
+
+
 def binop(ip, op, a, b):
+    if hasattr(a, 'pv_binop'):
+        return a.pv_binop(ip, _OPNAMES.get(type(op).__name__), b)
+    if hasattr(b, 'pv_binop'):
+        return b.pv_binop(ip, _OPNAMES.get(type(op).__name__), a, reflected=True)
     # concrete python values
     if _is_conc_num(a) and _is_conc_num(b) and not isinstance(op, (ast.MatMult,)):
         try:
@@ -548,6 +562,8 @@ def _cmp_inf(op, a, b):
 
 
 def _is(a, b):
+    if hasattr(a, 'pv_getattr') or hasattr(b, 'pv_getattr'):
+        return a is b
     if isinstance(a, NpScalar) or isinstance(b, NpScalar):
         return a is b          # a numpy scalar is never the singleton True / False / None
     if a is None and b is None:
@@ -797,6 +813,8 @@ def seq_any(ip, s, negate=False):
 
 def getattr_(ip, o, attr):
     I = _interp_types()
+    if hasattr(o, 'pv_getattr'):
+        return o.pv_getattr(ip, attr)
     if isinstance(o, Obj):
         if attr in o.fields:
             return o.fields[attr]
